@@ -29,6 +29,10 @@ import (
 
 // MyWorld is one case of the MySQL front end: key store, schema store, fake database, random stream.
 type MyWorld struct {
+	// Gated: a deterministic adversarial schedule for the two proxy goroutines – every packet the proxy writes to
+	// the client is delivered, and then the writing (database-side) goroutine is held until the client-side
+	// goroutine has forwarded the client's next command (or 25 ms passed)
+	Gated   bool
 	KS      *env.TKS
 	DB      *fakemy.DB
 	Rnd     *stream
@@ -108,11 +112,46 @@ func (s *MySess) panicked() interface{} {
 	return s.Panic
 }
 
+type gate struct{ ch chan struct{} }
+
+// gatedConn is the proxy's connection to the client in a Gated world.
+type gatedConn struct {
+	net.Conn
+	g *gate
+}
+
+func (c gatedConn) Write(p []byte) (int, error) {
+	n, err := c.Conn.Write(p)
+	select {
+	case <-c.g.ch:
+	case <-time.After(25 * time.Millisecond):
+	}
+	return n, err
+}
+
+// notifyConn is the proxy's connection to the database in a Gated world.
+type notifyConn struct {
+	net.Conn
+	g *gate
+}
+
+func (c notifyConn) Write(p []byte) (int, error) {
+	select {
+	case c.g.ch <- struct{}{}:
+	default:
+	}
+	return c.Conn.Write(p)
+}
+
 // Open connects a new client: what SServer.handleClientSession does, with net.Pipe instead of TCP.
 func (w *MyWorld) Open(clientID string, caps uint32) (*MySess, error) {
 	c1, c2 := net.Pipe() // client <-> proxy
 	d1, d2 := net.Pipe() // proxy <-> database
 	cs := &session{client: c2, db: d1, data: map[string]interface{}{}}
+	if w.Gated {
+		g := &gate{ch: make(chan struct{})}
+		cs.client, cs.db = gatedConn{c2, g}, notifyConn{d1, g}
+	}
 	ctx := base.SetClientSessionToContext(context.Background(), cs)
 	cs.ctx = ctx
 	proxy, err := w.factory.New([]byte(clientID), cs)
